@@ -168,9 +168,9 @@ Definition run_catch (rs : rsrc) (sym : bytes) (sig : N) (mode : bool) (b : byte
     let v1 := vset_ca (vset_st v st') ca' in
     match s with
     | SOk =>
-      let '(v2, c) := fetch_code rs nsym v1 in
+      let '(v2, c) := fetch_code rs nsym (vlog v1 (EvMove 2 sym nsym)) in
       match c with
-      | Ok code => (vlog v2 (EvMove 2 sym nsym), code, SOk)
+      | Ok code => (v2, code, SOk)
       | Err e => (v2, b, SErr e None)
       | Panic n => (v2, b, SPanic n)
       end
@@ -230,9 +230,9 @@ Definition run_move (rs : rsrc) (sep : bytes) (sym : bytes) (b : bytes) (v : vms
   let v1 := vset_ca (vset_st v st') ca' in
   match s with
   | SOk =>
-    let '(v2, c) := fetch_code rs nsym v1 in
+    let '(v2, c) := fetch_code rs nsym (vlog v1 (EvMove 0 sym nsym)) in
     match c with
-    | Ok code => (vlog (vset_pg v2 (vm_reset sep (v_pg v2))) (EvMove 0 sym nsym), b ++ code, SOk)
+    | Ok code => (vset_pg v2 (vm_reset sep (v_pg v2)), b ++ code, SOk)
     | Err e => (v2, b, SErr e None)
     | Panic n => (v2, b, SPanic n)
     end
@@ -258,10 +258,10 @@ Definition run_incmp (rs : rsrc) (sep : bytes) (dest sel : bytes) (b : bytes) (v
       match s with
       | SErr EIndex _ => (vlog (vset_st v1 (setf st' FLAG_READIN)) (EvInCmp dest sel false), b, SOk)
       | SOk =>
-        let v2 := vset_pg v1 (vm_reset sep (v_pg v1)) in
+        let v2 := vlog (vlog (vset_pg v1 (vm_reset sep (v_pg v1))) (EvInCmp dest sel true)) (EvMove 1 dest nsym) in
         let '(v3, c) := fetch_code rs nsym v2 in
         match c with
-        | Ok code => (vlog (vlog v3 (EvInCmp dest sel true)) (EvMove 1 dest nsym), b ++ code, SOk)
+        | Ok code => (v3, b ++ code, SOk)
         | Err e => (v3, b, SErr e None)
         | Panic n => (v3, b, SPanic n)
         end
